@@ -1,6 +1,7 @@
 import Beetswap.Proofs.ClientQuery
 import Beetswap.Proofs.CidLayer
 import Beetswap.Proofs.Server
+import Beetswap.Proofs.NodeStore
 /-!
 # C01 — Delivered and stored blocks always match the requested CID
 
@@ -53,6 +54,44 @@ theorem wanted_block_answers (s : State) (p k d : Nat) (acc : List (Nat × Nat))
     (applyBlock s p k d acc).1.queue = s.queue ++ ((s.waiters[k]?).getD []).map (fun q => Out.resp q d) ∧
     k ∉ (applyBlock s p k d acc).1.wantlist.cids ∧ (applyBlock s p k d acc).1.waiters[k]? = none :=
   Proofs.ClientQuery.wanted_block_answers s p k d acc h
+
+end
+
+/-! ### The whole node: what is stored and what is forwarded (`Spec/NodeSpec`: `hrun` = any
+operation sequence with the history of outputs, of blocks accepted by the client gate, and of
+blockstore hits / application-announced blocks) -/
+section
+open Beetswap.Node Beetswap.Spec.NodeSpec
+open Beetswap.Client (Out StoreRes)
+
+/-- Every block the node writes to its blockstore on behalf of the network was accepted by the
+client gate under exactly that CID (for all operation sequences). -/
+theorem store_keyed (ops : List Node.Op) (seq : Nat) (bs : List (Nat × Nat)) (kd : Nat × Nat)
+    (h : Out.callPut seq bs ∈ (hrun ({}, {}) ops).2.outs) (hk : kd ∈ bs) :
+    kd ∈ (hrun ({}, {}) ops).2.accepted :=
+  Proofs.NodeStore.store_keyed ops seq bs kd h hk
+
+/-- Every block forwarded to another peer was accepted by the client gate (and stored), or is a
+blockstore hit / an application-announced block: never a received block that was not wanted. -/
+theorem forwarded_subset (ops : List Node.Op) (p : Nat) (bs : List (Nat × Nat)) (kd : Nat × Nat)
+    (h : Out.blocks p bs ∈ (hrun ({}, {}) ops).2.outs) (hk : kd ∈ bs) :
+    kd ∈ (hrun ({}, {}) ops).2.accepted ∨ kd ∈ (hrun ({}, {}) ops).2.external :=
+  Proofs.NodeStore.forwarded_subset ops p bs kd h hk
+
+/-- A block is handed from the client half to the server half only after its store write
+succeeded. -/
+theorem new_blocks_were_stored (ops : List Node.Op) (kd : Nat × Nat)
+    (h : kd ∈ (hrun ({}, {}) ops).1.client.newBlocks) : kd ∈ (hrun ({}, {}) ops).2.accepted :=
+  Proofs.NodeStore.new_blocks_were_stored ops kd h
+
+/-- A received block for a CID that is not wanted leaves the whole node unchanged. -/
+theorem unwanted_block_inert_node (s : Node.State) (p k d : Nat) (h : k ∉ s.client.wantlist.cids) :
+    (step s (.msg p [] [] [(k, d)] none)).1.client.queue = s.client.queue ∧
+    (step s (.msg p [] [] [(k, d)] none)).1.client.tasks = s.client.tasks ∧
+    (step s (.msg p [] [] [(k, d)] none)).1.client.newBlocks = s.client.newBlocks ∧
+    (step s (.msg p [] [] [(k, d)] none)).1.server = s.server ∧
+    (step s (.msg p [] [] [(k, d)] none)).2.1 = [] :=
+  Proofs.NodeStore.unwanted_block_inert_node s p k d h
 
 end
 
